@@ -41,5 +41,6 @@ let () =
     | "adapt" -> M_adapt.run_line
     | "ovec" -> M_ovec.run_line
     | "obs" -> M_obs.run_line
+    | "chain" -> M_chain.run_line
     | _ -> failwith ("unknown mode " ^ mode) in
   iter_lines stdin (fun line -> if line <> "" then f line)
